@@ -95,7 +95,7 @@ def candidates(case):
             s["edges"] = keep
             yield dict(case, spec=_cleanup(s))
     # flatten hierarchy
-    if any("/" in p for p, _ in spec["nodes"]):
+    if any("/" in p for p, _ in spec["nodes"]) and "req" not in case and "hist" not in case:
         s = copy.deepcopy(spec)
         ren = {p: p.split("/")[-1] for p, _ in s["nodes"]}
         if len(set(ren.values())) == len(ren):
